@@ -930,6 +930,17 @@ func (w *ABWorld) allSettled() bool {
 
 // Final evaluates C02's oracle after the drain.
 func (w *ABWorld) Final(bound time.Duration) {
+	// the drain may have ended in silence (bound reached with nothing emitted): let the applications look at their
+	// sockets once more, so that an error the stack reported meanwhile - a handshake given up - is seen
+	for _, c := range w.conns {
+		w.checkConnected(c)
+		for si := 0; si < 2; si++ {
+			if s := c.s[si]; s != nil && !s.closed {
+				for w.read(c.id, si) {
+				}
+			}
+		}
+	}
 	for _, c := range w.conns {
 		for wi := 0; wi < 2; wi++ {
 			done, how := w.dirDone(c, wi)
